@@ -1,10 +1,12 @@
 import OsacaVerif.Driver.Proto
 import OsacaVerif.Driver.C12
+import OsacaVerif.Driver.C10
 open OsacaVerif OsacaVerif.Proto
 
 /-- one handler per property module; the first that recognises the op answers -/
 def handlers : List (Req → Option String) := [
-  Driver.C12.handle
+  Driver.C12.handle,
+  Driver.C10.handle
 ]
 
 def dispatch (r : Req) : String :=
